@@ -1,7 +1,8 @@
 import Driver.Cbor
+import Driver.Asm
 open Ipld.Driver
 
-def handlers : List (List String → Option String) := [cborHandler]
+def handlers : List (List String → Option String) := [cborHandler, asmHandler]
 
 def dispatch (line : String) : String :=
   let toks := (line.trimAscii.toString.splitOn " ").filter (· ≠ "")
